@@ -19,7 +19,7 @@ const sameInstant = 100 * time.Nanosecond
 // the pending-request check of blackholed requests: a request that is never answered must not keep the client alive after Close
 func c12Origin(r *Run) *stubOrigin {
 	g := &originGen{containers: []string{"ts", "fmp4"}, modes: []string{"vod", "live", "event"}, minSegs: 3, maxSegs: 8,
-		renditions: true, byteRanges: true, segDurMs: []int{500, 1000, 2000, 4000, 4000}, multiFrag: false, noPDTChance: 3}
+		renditions: true, byteRanges: true, segDurMs: []int{500, 1000, 2000, 4000, 4000}, multiFrag: r.T.Chance(1, 2), noPDTChance: 3}
 	o := genStubOrigin(r, g)
 	for _, st := range o.streams {
 		if st.mode != "vod" {
@@ -30,16 +30,18 @@ func c12Origin(r *Run) *stubOrigin {
 }
 
 func checkTermination(r *Run, w *cliWorld, faultFired string, faultStatus int, closed bool) {
+	r.SettleHolds() // a Close at the very end of the run: goroutines held at an instrumented point still have to leave
 	// the injected fault's error must be the one surfaced, unless something else ended the client first
 	// (an error of another stream that occurred strictly before the faulty response reached the client)
 	faultFirst := true
-	// a playlist answered at the very instant of Wait's value may have ended the client on its own account
-	// (live edge: next segment not listed yet); two errors of one instant race inside the client
+	// a response delivered at the very instant of Wait's value may have ended the client on its own account (a playlist
+	// at the live edge: next segment not listed yet; an init section after which the stream finds too few segments);
+	// two errors of one instant race inside the client
 	if w.waitSeen && w.waitErr != nil {
 		switch w.waitErr.Error() {
 		case "next segment not found or not ready yet", "playback is too late", "there aren't enough segments to fill the buffer":
 			for _, nr := range w.net.log {
-				if nr.delivered && nr.fate.fault == "" && strings.Contains(nr.url, ".m3u8") && nr.deliveredAt <= w.waitAt && w.waitAt-nr.deliveredAt <= sameInstant {
+				if nr.delivered && nr.fate.fault == "" && nr.deliveredAt <= w.waitAt && w.waitAt-nr.deliveredAt <= sameInstant+12*r.MaxHold() {
 					faultFirst = false
 				}
 			}
@@ -247,6 +249,7 @@ func scC12Close(r *Run) {
 			syncWait()
 			w.pollWait()
 		}
+		r.SettleHolds()
 	}
 	r.Tracef("end: wait=%v err=%s requests=%d closes=%d", w.waitSeen, describeErr(w.waitErr), len(w.net.log), closes)
 	checkTermination(r, w, "", 0, true)
